@@ -284,10 +284,10 @@ def rule_extend_map(body, counts):
         p, e = mc2.group(1), mc2.group(2).strip()
         x = m.group(1)
         if mm.group("it"):
-            rep = f"while let Some({p}) = {mm.group('it')}.next() {{ {x}.push({e}); }}"
+            rep = f"while let Some({p}) = {mm.group('it')}.next() {{\n {x}.push({e});\n }}"
             counts["R5a"] = counts.get("R5a", 0) + 1
         else:
-            rep = f"for {p} in {mm.group('a').strip()}..{mm.group('b').strip()} {{ {x}.push({e}); }}"
+            rep = f"for {p} in {mm.group('a').strip()}..{mm.group('b').strip()} {{\n {x}.push({e});\n }}"
             counts["R5b"] = counts.get("R5b", 0) + 1
         body = body[:m.start()] + rep + body[end + 1:]
         pos = m.start() + len(rep)
@@ -316,7 +316,7 @@ def rule_iter_map(body, counts):
         mcol = re.match(r"\s*\.collect\(\)", rest)
         if mcol:
             rep = (f"{{ let mut vx_v = Vec::new(); let mut vx_i: usize = 0; while vx_i < {y}.len() "
-                   f"{{ let {p} = &{y}[vx_i]; vx_v.push({e}); vx_i += 1; }} vx_v }}")
+                   f"{{\n let {p} = &{y}[vx_i];\n vx_v.push({e});\n vx_i += 1;\n }} vx_v }}")
             body = body[:m.start()] + rep + rest[mcol.end():]
             counts["R5d"] = counts.get("R5d", 0) + 1
             pos = m.start() + len(rep)
@@ -328,7 +328,7 @@ def rule_iter_map(body, counts):
         if mx and mend:
             x = re.sub(r"\s+", "", mx.group(1))
             rep = (f"{{ let mut vx_i: usize = 0; while vx_i < {y}.len() "
-                   f"{{ let {p} = &{y}[vx_i]; {x}.push({e}); vx_i += 1; }} }}")
+                   f"{{\n let {p} = &{y}[vx_i];\n {x}.push({e});\n vx_i += 1;\n }} }}")
             body = pre[:mx.start()] + rep + rest[mend.end():]
             counts["R5e"] = counts.get("R5e", 0) + 1
             pos = mx.start() + len(rep)
@@ -368,7 +368,7 @@ def rule_extend_iter(body, counts):
         counts["R5f"] = counts.get("R5f", 0) + 1
         x = re.sub(r"\s+", "", m.group(1)); y = re.sub(r"\s+", "", m.group(2))
         return (f"{{ let mut vx_i: usize = 0; while vx_i < {y}.len() "
-                f"{{ {x}.push({y}[vx_i]); vx_i += 1; }} }}")
+                f"{{\n {x}.push({y}[vx_i]);\n vx_i += 1;\n }} }}")
     return pat.sub(rep, body)
 
 
